@@ -1,21 +1,28 @@
 LIBS = ["libavoid"]                 # libavoid carries its own vpsc copy; it links alone
 HARNESS = "harness/c03.cpp"
 DRIVER_MODE = "c03"
-LEAN_MODULES = ["AdaptaVerif.Props.C03"]
+LEAN_MODULES = ["AdaptaVerif.Props.C03", "AdaptaVerif.Props.C03Lee"]
 LEVEL = "translation_validation"
 LEVEL_TEXT = ("Every route()/displayRoute() returned by libavoid on the generated scenes is decided valid or invalid by an "
               "exact rational checker (Check.Route.routeValid / segHitsInterior, Cyrus-Beck clipping) whose soundness and "
               "completeness against the mathematical spec (Spec.Route.RouteValid: endpoints joined, >= 2 points, no point of a "
               "leg strictly inside a non-excluded convex shape) are Lean theorems for all polygons, routes and scenes. "
               "'An obstacle-free path exists' is established per case by an explicit path that the same proven checker certifies.")
-LEVEL_NOTE = ("Per-run verified checker on real outputs, not a proof about the C++: Lee's rotational sweep, the orthogonal "
-              "scan-line graph builder, A* and the nudging solver are not modelled. Only the naive visibility test "
-              "(UseLeesAlgorithm=false) has a Lean model (Model.Visibility), tied by exact edge-set comparison on exactly "
-              "representable scenes; that model is proved UNSOUND on a concrete witness (visible_unsound_witness) - the "
-              "unrestricted soundness statement is false of the code. A bounding-box prefilter in the driver (unverified) only "
+LEVEL_NOTE = ("Per-run verified checker on real outputs, not a proof about the C++: the orthogonal "
+              "scan-line graph builder, A* and the nudging solver are not modelled. Both polyline visibility algorithms have a "
+              "hand-written Lean model tied by exact edge-set comparison on exactly representable (k/64) scenes: the naive test "
+              "(Model.Visibility; proved UNSOUND on a concrete witness, visible_unsound_witness - the unrestricted soundness "
+              "statement is false of the code) and, for one-transaction scenes, the DEFAULT algorithm, Lee's rotational sweep "
+              "(Model.LeeSweep: PointPair/EdgePair orders, status list, sweepVisible decision rule, onBorderIDs, newBlockingShape; "
+              "directions ordered exactly and squared distances compared instead of atan/sqrt doubles - an assumption of that tie, "
+              "valid for small dyadic coordinates and itself exercised by the comparison). Props/C03Lee: the decision rule blocks / "
+              "lets through exactly according to the nearest status edge for ALL sorted status lists; on touching axis-parallel "
+              "rectangles it agrees with the spec (segHitsInterior) when the centre is on a vertical side, and is provably blind when "
+              "the centre is on a horizontal side (known weakness). A spec-blocked dumped edge that the modelled sweep does not "
+              "produce is class=sweep-model-blocks and is never excused by the known findings. A bounding-box prefilter in the driver (unverified) only "
               "skips shapes during the search for hits; every reported hit is confirmed by the proven checker. "
               "The interior of a convex polygon is *defined* as the intersection of the open half-planes of its edges.")
-TECHNIQUE = "Lean 4 theorems about an exact route checker (sound+complete) + correspondence harness on libavoid outputs; Lean model of the naive visibility test"
+TECHNIQUE = "Lean 4 theorems about an exact route checker (sound+complete) + correspondence harness on libavoid outputs; Lean models of the naive visibility test and of Lee's rotational sweep (decision-rule theorems), both tied by exact edge-set comparison"
 RULE = ("scenes: 1-12 (thorough <=40) interior-disjoint convex shapes (rectangles / convex k-gons) placed in grid cells, "
         "touching/shared edges/collinear corners frequent, or jittered into general position; 1-8 connectors with free-space "
         "endpoints (random or hugging shape corners); polyline (Lee / naive), orthogonal and mixed routers; buffer 0 or >0; "
@@ -28,6 +35,10 @@ RULE = ("scenes: 1-12 (thorough <=40) interior-disjoint convex shapes (rectangle
         "Polyline edit histories (tag poly-edit-history, general-position scenes): router kept alive, each later transaction adds a "
         "small rectangle or moves an existing one across exactly one segment of a current route (first/middle/last/only), or "
         "deletes / moves away a shape; every (history, step) snapshot is a case (child process replays the history). "
+        "Touching clusters (printed `gen touching-cluster`, tag lee-collinear): 3-7 rectangles grown side-to-side from one "
+        "rectangle so that corners lie in the middle of neighbours' sides / on their corners and sides continue each other "
+        "(collinear edges), random creation order (= order of the sweeps), half-integer coordinates, buffer 0 or routing polygons "
+        "touching; default algorithm; 1-3 connectors hugging corners or free. "
         "A case is non-trivial if some route has >= 3 points (had to bend round a shape).")
 TRUSTED_BASE = ["Lean 4.33 kernel", "axioms: propext, Classical.choice, Quot.sound", "Lean compiler for the driver",
                 "harness + generator + hex-float import", "driver glue: parsing, bounding-box prefilter (completeness of the hit search only)"]
